@@ -1173,6 +1173,10 @@ func (g *gen) query(r *vh.Rand, hazard string) *qb {
 			if r.Chance(30) {
 				b.ws(" ")
 			}
+			if r.Chance(30) { // a comment between the function name and its parenthesis is still a call
+				b.push(tok{'b', "/* " + vh.Pick(r, commentPool) + " */"})
+				b.ws(" ")
+			}
 			b.p("(")
 			b.num(1)
 			b.comma()
@@ -1800,6 +1804,8 @@ var corpus = []corpusStmt{
 	{"fastpath-cr", "SELECT rid, cnt FROM \r\ncpu ORDER BY rid", []string{"cpu"}, nil, true, []string{"prod"}},
 	{"with-newline", "WITH\nrecent AS (SELECT rid, host FROM mem WHERE host <> 'x')\nSELECT rid FROM recent ORDER BY rid", []string{"mem"}, []string{"recent"}, true, []string{"prod"}},
 	{"tablefunc", "SELECT g FROM range(1, 3) t(g) ORDER BY g", nil, nil, true, []string{"prod"}},
+	{"tablefunc", "SELECT g FROM range /* n */ (1, 3) t(g) ORDER BY g", nil, nil, true, []string{"", "prod"}},
+	{"tablefunc", "SELECT g FROM generate_series -- n\n (1, 3) t(g) ORDER BY g", nil, nil, true, []string{"", "prod"}},
 	// benign class fn-nested: must agree on the unchanged tree (regression corpus for the frame stack of the FROM mask)
 	{"fn-nested", "SELECT rid, SUBSTRING(UPPER(host) FROM cnt) AS e FROM cpu ORDER BY rid", []string{"cpu"}, nil, true, []string{"", "prod"}},
 	{"fn-nested", "SELECT a.rid, TRIM(LEADING LOWER('H') FROM a.host) AS e FROM mem a WHERE SUBSTRING(CONCAT(a.host, (a.region)) FROM a.cnt FOR 3) IS NOT NULL ORDER BY a.rid", []string{"mem"}, nil, true, []string{"", "prod"}},
